@@ -661,6 +661,10 @@ def gen_res():
                '<svg x="1" y="12" width="20" height="10" viewBox="0 0 10 10" preserveAspectRatio="xMaxYMin slice"><rect width="5" height="5" rx="9"/></svg>'
                '<g transform="translate(5) scale(2 , 1) rotate(10 1 1) skewY(5) matrix(1 0 0 1 0 0)"><path d="M1,1 l2-2 .5.5 1e1,0 z"/><polyline points="1,1 2"/><polygon points=""/><line x1="1"/>'
                '<ellipse rx="0" ry="4"/><circle r="-1"/><rect width="10%" height="1em" x="1ex" fill="rgb(1,2)" stroke="#12" stroke-width="-1" stroke-dasharray="1, ,2" opacity="2"/></g>'
+               '<g transform="matrix(1 2 3 4 5 6 7)"><rect width="2" height="2"/></g><g transform="matrix(1 0 0 1 0)"><rect width="2" height="2"/></g><g transform="rotate(1 2 3 4) translate(1 2 3) scale() skewX(1 2) rotate()"><rect width="2" height="2"/></g>'
+               '<g transform="matrix(0 0 0 0 0 0 0 0 0) translate"><rect width="2" height="2"/></g><g transform="scale(1,2,3,4,5,6,7,8)"><rect width="2" height="2"/></g>'
+               '<defs><linearGradient id="lg" gradientTransform="matrix(1 0 0 1 0 0 9) rotate(1,2,3,4)"><stop offset="0" stop-color="red"/></linearGradient><pattern id="pt" width="2" height="2" patternTransform="translate(1 2 3 4 5 6 7)"><rect width="1" height="1"/></pattern></defs>'
+               '<rect x="30" width="4" height="4" fill="url(#lg)"/><rect x="36" width="4" height="4" fill="url(#pt)"/>'
                '<text x="1 2 3" y="" dx="a" font-size="0" text-anchor="middle">sv03</text></svg>')
     files = {"odd.svg": (odd_svg, dict(mime="image/svg+xml", kind="svg"))}
     for i, par in enumerate(["xMid", "x", "", "none", "xMinYMax", "xMidYMid  slice", "defer xMidYMid", "slice"]):
@@ -673,8 +677,11 @@ def gen_res():
     # declarations / rules that are invalid in an unusual way (must be dropped, never crash)
     oddcss = ('.q1 { font: 12px / } .q2 { font: 12px /; color: red } .q3 { font: / ahem } .q4 { string-set: a content(), ; bookmark-label: , } .q5 { margin: 1px 2px 3px 4px 5px; padding: / } '
               '@page :nth(of a) { margin: 1px } @page :nth( ) { margin: 1px } @page :nth(2n + ) { margin: 2px } @page x:first:first:blank { size: } .q6 { transform: rotate() scale(,) ; grid-area: / / / ; content: counter() counters(,) attr() } '
-              '.q7 { background: url( ; } .q8 { quotes: "a"; font-family: , ; counter-reset: a b c 1 2 ; transition: } @media { p { color: blue } } @media ( { } @font-face { src: ; unicode-range: u+ } @counter-style { } @counter-style x { system: ; symbols: ; additive-symbols: 0 }\n')
-    body = ("<style>%s</style><p>%s</p>" % (oddcss, pars) + '<table><colgroup span="99999999999999"></colgroup><colgroup><col span="99999999999999"><col span="1001"></colgroup><tr><td class="q1 q2 q3 q4 q5 q6 q7 q8">o000</td></tr></table>' +'<table><colgroup><col span="0"><col span="x"></colgroup><tr><td colspan="0">o001</td><td rowspan="0">o002</td><td colspan="abc" rowspan="-1">o003</td><td colspan="1000">o004</td></tr><tr><td>o005</td></tr></table>'
+              '.q7 { background: url( ; } .q8 { quotes: "a"; font-family: , ; counter-reset: a b c 1 2 ; transition: } @media { p { color: blue } } @media ( { } @font-face { src: ; unicode-range: u+ } @counter-style { } @counter-style x { system: ; symbols: ; additive-symbols: 0 }\n'
+              '.q9 { font: normal } .q10 { font: normal normal normal normal } .q11 { font: italic } .q12 { font: normal small-caps } '
+              'html { --cy: var(--cy); --ca: var(--cb); --cb: var(--ca, 3px); --ok: 5px; --d: var(--d, 4px) } .q13 { width: var(--cy); margin-left: var(--ca); padding-left: var(--d) } '
+              '.q14 { margin-left: calc(1px + calc(var(--ok))); background: linear-gradient(rgb(var(--ok), 0, 0), blue); border-left: var(--none, var(--ok)) solid } .q15 { margin: var(--cy) var(--ok) var() var(1) var(--) }\n')
+    body = ("<style>%s</style><p>%s</p>" % (oddcss, pars) + '<table><colgroup span="99999999999999"></colgroup><colgroup><col span="99999999999999"><col span="1001"></colgroup><tr><td class="q1 q2 q3 q4 q5 q6 q7 q8 q9 q10 q11 q12 q13 q14 q15">o000</td></tr></table>' +'<table><colgroup><col span="0"><col span="x"></colgroup><tr><td colspan="0">o001</td><td rowspan="0">o002</td><td colspan="abc" rowspan="-1">o003</td><td colspan="1000">o004</td></tr><tr><td>o005</td></tr></table>'
             '<ol start="x" reversed><li value="z">o006</li><li>o007</li></ol><ol start="-3"><li>o008</li></ol>'
             '<p><img src="odd.svg" alt="alt1" width="-" height="1e"> <img src="odd.svg" width="0" height="0" alt="alt2"> <font size="+9" color="#zz">o009</font> <font size="">o010</font></p>'
             '<hr size="x" width="50%%"><pre width="0">o011</pre><p align="bogus" dir="x" lang="">o012</p>' + text)
@@ -755,6 +762,11 @@ def gen_hyph():
     css = page_css(200, 150, 10) + "html, body { margin: 0; font-family: ahem; font-size: 8px; line-height: 10px }\np { margin: 0 0 10px 0; hyphens: auto; width: 150px }\n"
     body = "".join('<p lang="%s">%s</p>' % (l, t) for l, t in sorted(texts.items()))
     scenario("hyph-04", "hyph", doc(css, body), expect=dict(page_w=200, page_h=150, margin=True, group="hyph"))
+    # a dictionary with NON-STANDARD hyphenation points (hungarian "vissza" breaks as "visz-sza"): the lookup rewrites
+    # the word around the break, from data held in the process-wide dictionary cache
+    css = page_css(200, 150, 10) + "html, body { margin: 0; font-family: ahem; font-size: 10px; line-height: 10px }\np { margin: 0 0 10px 0; hyphens: auto; width: 50px }\n"
+    body = '<p lang="hu">visszaemlekezesekkel</p><p lang="hu">asszonnyal visszavonhatatlanul hosszabbitassal</p>'
+    scenario("hyph-05", "hyph", doc(css, body), expect=dict(page_w=200, page_h=150, margin=True, group="hyph"))
 
 
 # ------------------------------------------------------------------ family feat-* (reach for rarely visited map-order sites)
@@ -986,6 +998,32 @@ def gen_geo():
             '<table><colgroup><col style="background:red"><col style="background:blue"><col style="background:green"></colgroup><tr><td>%s</td><td>%s</td></tr><tr style="background:yellow"></tr><tr><td colspan=2>%s</td></tr></table>'
             '<table><tr style="background:red"></tr></table><table><colgroup style="background: red"><col></colgroup></table>' % tuple(W[:5])) + para(W[5:])
     scenario("geo-03", "geo", doc(css, body), expect=dict(margin=True, page_w=300, page_h=200, sentinels=W[5:], line_height=12))
+
+    # geo-04: every radial-gradient size keyword x shape x centre on an edge / corner / outside (radius 0 along one or both
+    # axes), on boxes with a zero dimension too; repeating gradients with a zero-length period
+    rules, divs = [], []
+    k = 0
+    for size in ("closest-side", "farthest-side", "closest-corner", "farthest-corner"):
+        for shape in ("circle", "ellipse"):
+            for pos in ("at left", "at 0 0", "at right bottom", "at center", "at 100% 50%", "at -10px -10px", "at top", "at 50% 100%"):
+                for rep in ("", "repeating-"):
+                    if rep and pos != "at center":
+                        # a repeating gradient of (nearly) zero radius is laid out with millions of colour stops:
+                        # seconds of uninstrumented computation per box, which the simulator cannot tell from a stall
+                        continue
+                    k += 1
+                    rules.append(".g%d { background: %sradial-gradient(%s %s %s, red, blue 50%%, green) }" % (k, rep, shape, size, pos))
+                    divs.append('<div class="q g%d"></div>' % k)
+    for extra in ("radial-gradient(0px 0px at 5px 5px, red, blue)", "radial-gradient(circle 0 at left, red, blue)", "radial-gradient(10px 0px, red, blue)",
+                  "repeating-linear-gradient(45deg, red 3px, blue 3px)", "linear-gradient(0.0001deg, red, blue)", "linear-gradient(to top left, red, blue)", "repeating-radial-gradient(red 2px, blue 2px)"):
+        k += 1
+        rules.append(".g%d { background: %s }" % (k, extra))
+        divs.append('<div class="q g%d"></div>' % k)
+    css = page_css(400, 300, 10) + BASE + ".q { width: 14px; height: 6px; float: left; margin: 1px } .w0 .q { width: 0; padding-left: 0 } .h0 .q { height: 0 } .sq .q { width: 6px }\n" + "\n".join(rules) + "\n"
+    W = words("w", 8)
+    body = ('<div>%s</div><div style="clear: both" class=w0>%s</div><div style="clear: both" class=h0>%s</div><div style="clear: both" class=sq>%s</div><div style="clear: both">%s</div>' %
+            ("".join(divs), "".join(divs[::3]), "".join(divs[1::3]), "".join(divs[2::3]), para(W)))
+    scenario("geo-04", "geo", doc(css, body), expect=dict(margin=True, page_w=400, page_h=300, sentinels=W, line_height=12))
 
     # bookmark level sequences (level 2 first; 1,3,2; skipping), headings at the very top of pages, links split across pages
     css = page_css(220, 150, 10) + BASE + "h1 { bookmark-level: 1 } h2 { bookmark-level: 2 } h3 { bookmark-level: 3 } h4 { bookmark-level: 5 }\n.top { break-before: page }\na { color: blue }\n"
@@ -1326,6 +1364,250 @@ def gen_wave3():
              expect=dict(margin=True, page_w=260, page_h=160, line_height=12, sentinels=W, cyclic=True, fault_words={"loop.svg": ["alt1"]}))
 
 
+def gen_wave4():
+    # pag-28: forced breaks with a side carried by TABLE ROWS and row groups (break-before on the row, break-after on the
+    # previous row), blank pages needed for some of them
+    css = (page_css(220, 150, 10) + BASE + "table { border-collapse: collapse; border-spacing: 0; width: 200px; margin: 0 }\ntd { padding: 0; vertical-align: top }\np { orphans: 1; widows: 1 }\n")
+    rows, flow, forced = [], [], []
+    wi = 1
+    spec = [(8, None, None), (6, None, None), (5, "right", None), (7, None, "left"), (4, None, None), (6, "left", None), (5, "page", None), (6, None, "recto"), (7, None, None), (4, "verso", None), (5, None, None)]
+    pending = None
+    groups = []
+    for k, before, after in spec:
+        ws = words("w", k, wi); wi += k; flow += ws
+        st = []
+        if before:
+            st.append("break-before: %s" % before)
+        if after:
+            st.append("break-after: %s" % after)
+        rows.append('<tr%s><td>%s</td></tr>' % ((' style="%s"' % "; ".join(st)) if st else "", " ".join(ws)))
+        side = before or pending
+        if side:
+            forced.append(dict(word=ws[0], side={"page": "any", "recto": "right", "verso": "left"}.get(side, side)))
+        pending = after
+    lead = words("w", 6, wi); wi += 6
+    tail = words("w", 6, wi); wi += 6
+    # a second table whose ROW GROUPS carry the breaks
+    g1 = words("w", 5, wi); wi += 5
+    g2 = words("w", 5, wi); wi += 5
+    g3 = words("w", 5, wi); wi += 5
+    forced.append(dict(word=g2[0], side="right")); forced.append(dict(word=g3[0], side="left"))
+    body = (para(lead) + "<table>%s</table>" % "".join(rows) + para(tail) +
+            '<table><tbody><tr><td>%s</td></tr></tbody><tbody style="break-before: right"><tr><td>%s</td></tr></tbody><tbody style="break-before: left"><tr><td>%s</td></tr></tbody></table>' % (" ".join(g1), " ".join(g2), " ".join(g3)))
+    scenario("pag-28", "pag", doc(css, body),
+             expect=dict(flows={"main": lead + flow + tail + g1 + g2 + g3}, margin=True, page_w=220, page_h=150, conserve=True, line_height=12, forced=forced))
+
+    # pag-29: @page :nth(an+b) with negative and zero steps; every rule sets a different margin, so the expected
+    # margins of page i are the base margins overridden by the rules whose an+b (n >= 0) reaches i
+    rules = [(-1, 2, 0, 30), (2, 3, 3, 25), (-2, 6, 1, 22), (1, 5, 2, 18), (0, 4, 0, 14)]
+    side = ["top", "right", "bottom", "left"]
+
+    def nth(a, b):
+        if a == 0:
+            return "%d" % b
+        return "%sn%+d" % ({1: "", -1: "-"}.get(a, str(a)), b)
+    css = ("@page { size: 220px 150px; margin: 10px; @bottom-center { content: \"pg\" counter(page) \"of\" counter(pages); font-family: ahem; font-size: 8px; line-height: 8px } }\n" +
+           "".join("@page :nth(%s) { margin-%s: %dpx }\n" % (nth(a, b), side[k], v) for a, b, k, v in rules) + BASE + "p { orphans: 1; widows: 1 }\n")
+    body, flow = [], []
+    wi = 1
+    for k in (40, 55, 30, 70, 45, 60):
+        ws = words("w", k, wi); wi += k; flow += ws
+        body.append(para(ws))
+    scenario("pag-29", "pag", doc(css, "\n".join(body)),
+             expect=dict(flows={"main": flow}, margin=True, page_w=220, page_h=150, conserve=True, line_height=12,
+                         page_margins_base=[10, 10, 10, 10], page_margins_nth=[dict(a=a, b=b, side=k, value=v) for a, b, k, v in rules]))
+
+
+    # feat-14: a running element whose generated content refers to the element itself (and two elements referring to each other)
+    css = ("@page { size: 240px 150px; margin: 20px 10px 10px 10px; @top-center { content: element(x); font-family: ahem; font-size: 8px } @top-left { content: element(y); font-family: ahem; font-size: 8px } "
+           "@bottom-center { content: \"pg\" counter(page) \"of\" counter(pages); font-family: ahem; font-size: 8px; line-height: 8px } }\n" + BASE +
+           ".r { position: running(x) } .q { position: running(y) } .r::before { content: element(x) element(y) } .q::before { content: element(x) } .q::after { content: \"zz\" }\n")
+    W = words("w", 30)
+    scenario("feat-14", "feat", doc(css, '<div class=r>r001</div><div class=q>q001</div>' + para(W[:15]) + para(W[15:])), expect=dict(margin=True, page_w=240, page_h=150, line_height=12, sentinels=W + ["r001", "q001"]))
+
+    # feat-15: bidirectional text: lines starting with a right-to-left run followed by left-to-right text, and the reverse
+    css = page_css(240, 150, 10) + BASE
+    W = words("w", 12)
+    body = ('<p>&#x5d0;&#x5d1; %s</p><p>%s &#x5d0;&#x5d1;&#x5d2; %s &#x5d3;&#x5d4;</p><p dir=rtl>%s <span>&#x5d0;&#x5d1; %s</span> %s</p><p>&#x627;&#x644;&#x633;&#x644;&#x627;&#x645; %s</p>' % (W[0], W[1], W[2], W[3], W[4], W[5], W[6])) + para(W[7:])
+    scenario("feat-15", "feat", doc(css, body), expect=dict(margin=True, page_w=240, page_h=150, line_height=12, sentinels=W[7:]))
+
+    # oof-17: footnote-policy block / line at every phase: the paragraph holding the call (not on its first line) meets the page
+    # bottom with 0..5 filler lines before it, with a footnote that fits and one that does not
+    for n, policy in enumerate(["block", "line"], start=17):
+        css = page_css(220, 106, 10) + BASE + "p { margin: 0; orphans: 1; widows: 1 }\nspan.fn { float: footnote; footnote-policy: %s }\n::footnote-call { content: \"\" } ::footnote-marker { content: \"\" }\n" % policy
+        body, flow, fns = [], [], {}
+        wi = 1
+        for k, (fill, fl) in enumerate([(0, 2), (2, 5), (4, 2), (5, 9), (1, 3), (3, 7)]):
+            for _ in range(fill):
+                ws = words("w", 3, wi); wi += 3; flow += ws
+                body.append(para(ws))
+            ws = words("w", 7, wi); wi += 7; flow += ws
+            fw = words("f", fl, k * 10 + 1); fns["foot%d" % k] = fw
+            body.append('<p>%s<br>%s <span class=fn>%s</span> %s</p>' % (" ".join(ws[:3]), " ".join(ws[3:5]), "<br>".join(fw), " ".join(ws[5:])))
+        flows = {"main": flow}; flows.update(fns)
+        scenario("oof-%d" % n, "oof", doc(css, "\n".join(body)), expect=dict(flows=flows, margin=True, page_w=220, page_h=106, conserve=True, line_height=12))
+
+    # oof-19: fixed and absolute boxes inside blocks that are cancelled and moved to the next page (break-inside: avoid,
+    # orphans / widows): each fixed box is drawn once per page, each absolute box once
+    css = page_css(220, 106, 10) + BASE + "p { margin: 0; orphans: 2; widows: 2 }\n.av { break-inside: avoid }\n.fx { position: fixed; top: 0; left: 150px }\n.fy { position: fixed; top: 12px; left: 150px }\n.ab { position: absolute; left: 150px }\n"
+    body, flow = [], []
+    wi = 1
+    rep = []
+    flows = {}
+    for k, fill in enumerate([3, 4, 5, 2]):
+        for _ in range(fill):
+            ws = words("w", 3, wi); wi += 3; flow += ws
+            body.append(para(ws))
+        ws = words("w", 9, wi); wi += 9; flow += ws
+        if k == 0:
+            extra = '<div class=fx>x001</div>'; rep.append("x001")
+        elif k == 1:
+            extra = '<span class=fy>y001</span>'; rep.append("y001")
+        else:
+            extra = '<span class=ab>a%03d</span>' % k; flows["abs%d" % k] = ["a%03d" % k]
+        if k % 2 == 0:
+            body.append('<div class=av><p>%s<br>%s<br>%s %s</p></div>' % (" ".join(ws[:3]), " ".join(ws[3:6]), " ".join(ws[6:]), extra))
+        else:
+            body.append('<p>%s %s<br>%s<br>%s</p>' % (" ".join(ws[:3]), extra, " ".join(ws[3:6]), " ".join(ws[6:])))
+    flows["main"] = flow
+    scenario("oof-19", "oof", doc(css, "\n".join(body)), expect=dict(flows=flows, repeat=rep, repeat_once_per_page=True, margin=True, page_w=220, page_h=106, conserve=True, line_height=12))
+
+    # grid-04: grids that do not fit where they start: first row below the page bottom (large top margin / padding),
+    # first row taller than the page, an item of zero width; the text after them must still be drawn
+    css = page_css(220, 150, 10) + BASE + ".g { display: grid; grid-template-columns: 60px 60px }\n"
+    W = words("w", 12)
+    gif0 = "data:image/gif;base64,R0lGODlhAAAFAAAAADs="
+    body = (para(W[:3]) + '<div class=g style="margin-top: 400px"><div>g001</div><div>g002</div></div>' + para(W[3:6]) +
+            '<div class=g style="padding-top: 400px"><div>g003</div></div>' + '<div class=g style="grid-template-rows: 300px 10px"><div>g004</div><div>g005</div><div>g006</div></div>' + para(W[6:9]) +
+            '<div class=g><img src="%s"><span>g007</span></div>' % gif0 + '<div class=g><img src="data:image/gif;base64,R0lGODlhAAAAAAAAADs="><span>g008</span></div><div class=g><img src="data:image/gif;base64,R0lGODlhBQAAAAAAADs="><span>g009</span></div>' + para(W[9:]))
+    scenario("grid-04", "grid", doc(css, body), expect=dict(margin=True, page_w=220, page_h=150, line_height=12, sentinels=W))
+
+    # flex-03: wrapping flex containers where an item is wider than the container, at every position (first, middle, last),
+    # alone on its line; and narrow columns
+    css = page_css(300, 200, 10) + BASE + ".fx { display: flex; flex-wrap: wrap; width: 120px; margin-bottom: 6px }\n.fx > div { flex: none }\n.wide { width: 200px } .n { width: 50px }\n"
+    flows, conts = {}, []
+    k = 0
+    for pattern in ("wnn", "nwn", "nnw", "w", "ww", "wnw"):
+        items = []
+        for ch in pattern:
+            ws = words("abcdefghijklmnopqrstuvwxyz"[k], 2); flows["item%d" % k] = ws; k += 1
+            items.append('<div class="%s">%s</div>' % ("wide" if ch == "w" else "n", " ".join(ws)))
+        conts.append('<div class=fx>%s</div>' % "".join(items))
+    scenario("flex-03", "flex", doc(css, "".join(conts) + para(words("w", 10))),
+             expect=dict(flows=dict(flows, main=words("w", 10)), margin=True, page_w=300, page_h=200, conserve=True, line_height=12))
+
+    # ow-05: inline elements continued over several lines and directly followed by text with no break opportunity
+    # (a comma after a link), in narrow blocks and across page breaks
+    css = page_css(150, 106, 10) + BASE + "p { margin: 0 0 12px 0; orphans: 1; widows: 1; width: 100px }\na { color: blue }\nspan.b::before { content: \"bb01 bb02 bb03\" }\n"
+    body, flow = [], []
+    wi = 1
+    for k in range(8):
+        ws = words("w", 9, wi); wi += 9
+        n1 = 1 + k % 3
+        toks = ws[:n1] + ["<a>" + ws[n1]] + ws[n1 + 1:n1 + 4] + [ws[n1 + 4] + "</a>,x%02d" % k] + ws[n1 + 5:]
+        flow += ws[:n1 + 5] + [",x%02d" % k] + ws[n1 + 5:]
+        body.append("<p>%s</p>" % " ".join(toks))
+    body.append('<p>y001 <span class=b></span>;y002 y003</p>'); flow += ["y001", "bb01", "bb02", "bb03", ";y002", "y003"]
+    scenario("ow-05", "ow", doc(css, "\n".join(body)), expect=dict(flows={"main": flow}, margin=True, page_w=150, page_h=106, conserve=True, line_height=12))
+
+    # res-19: replaced elements WITHOUT intrinsic ratio (svg with neither viewBox nor size; with only a width) and with a
+    # degenerate one (0x0, 0x5, 5x0 rasters), with min/max sizes, in every shrink-to-fit context
+    noratio = '<svg xmlns="http://www.w3.org/2000/svg"><rect width="5" height="5"/></svg>'
+    onlyw = '<svg xmlns="http://www.w3.org/2000/svg" width="30"><rect width="5" height="5"/></svg>'
+    gifs = {"g00.gif": "R0lGODlhAAAAAAAAADs=", "g05.gif": "R0lGODlhAAAFAAAAADs=", "g50.gif": "R0lGODlhBQAAAAAAADs="}
+    files = {"nr.svg": (noratio, dict(mime="image/svg+xml", kind="svg")), "ow.svg": (onlyw, dict(mime="image/svg+xml", kind="svg"))}
+    for fn, b64 in gifs.items():
+        files[fn] = (base64.b64decode(b64), dict(mime="image/gif", kind="image"))
+    css = page_css(300, 220, 10) + BASE + (".mh { min-height: 10px } .xh { max-height: 8px } .mw { min-width: 10px } .xw { max-width: 8px } .ib { display: inline-block } .fl { float: left } .ab { position: absolute; left: 200px }\n"
+                                            ".fx { display: flex } .gr { display: grid; grid-template-columns: 40px 40px } td { padding: 0 }\n")
+    W = words("w", 16)
+    imgs = []
+    for src in ("nr.svg", "ow.svg", "g00.gif", "g05.gif", "g50.gif"):
+        for cls in ("mh", "xh", "mw", "xw", "mh xw"):
+            imgs.append('<img class="%s" src="%s" alt="">' % (cls, src))
+    allimgs = "".join(imgs)
+    body = (para(W[:4]) + '<span class=ib>%s</span><div class=fl>%s</div><div style="clear:both"></div><table><tr><td>%s</td></tr></table><div class=ab>%s</div>' % (allimgs, allimgs, allimgs, "".join(imgs[:8])) +
+            '<div class=fx>%s<span>%s</span></div><div class=gr>%s<span>%s</span></div>' % ("".join(imgs[::3]), W[4], "".join(imgs[1::3]), W[5]) + para(W[6:]))
+    scenario("res-19", "res", doc(css, body), files=files, expect=dict(margin=True, page_w=300, page_h=220, line_height=12, sentinels=W))
+
+    # feat-16: url() and other image values where no image can be used: string-set, bookmark-label, content of margin boxes
+    css = ("@page { size: 240px 150px; margin: 20px 10px 10px 10px; @top-left { content: string(s1) url(dot.png); font-family: ahem; font-size: 8px } "
+           "@bottom-center { content: \"pg\" counter(page) \"of\" counter(pages); font-family: ahem; font-size: 8px; line-height: 8px } }\n" + BASE +
+           "h2 { string-set: s1 url(dot.png) content() url(missing.png), s2 url(dot.png); bookmark-level: 1; bookmark-label: url(dot.png) content(text) url(missing.png) }\n"
+           "p::before { content: url(missing.png) url(dot.png) } li::marker { content: url(missing.png) }\n")
+    W = words("w", 20)
+    scenario("feat-16", "feat", doc(css, '<h2>h001</h2>' + para(W[:10]) + '<h2>h002</h2><ul><li>%s</li></ul>' % W[10] + para(W[11:])),
+             files={"dot.png": (png(2, 2, (1, 2, 3)), dict(mime="image/png", kind="image"))},
+             expect=dict(margin=True, page_w=240, page_h=150, line_height=12, sentinels=W + ["h001", "h002"]))
+
+def gen_reach():
+    # documents aimed at range-over-map sites the evidence listed as never visited with >= 2 keys
+    # (the reach table of evidence/C15.json): several page-based counters and several target counters missing
+    # in ONE content list, a bookmark label built from counters, ligature / feature maps, grid items with a
+    # definite row and an automatic column (sparse and dense)
+    css = (page_css(240, 150, 10) + BASE +
+           "body { counter-reset: sec }\nh2 { counter-increment: sec; bookmark-level: 1; bookmark-label: counter(sec) \" \" content(text) \" p\" counter(page) }\n"
+           "a.t::after { content: \" \" counter(page) \"/\" counter(pages) \" \" target-counter(attr(href), page) \"/\" target-counter(attr(href), pages) \"/\" target-counter(attr(data-b), pages) \"/\" target-counter(attr(data-c), sec) }\n"
+           ":root { --a: 3px; --b: 5px; --c: underline } p { margin-left: var(--a); padding-left: var(--b) } .caps { --b: 7px; text-decoration: var(--c) overline }\n"
+           ".lig { font-variant-ligatures: none; font-feature-settings: \"kern\" 0, \"liga\" 1, \"smcp\" }\n.caps { font-variant-caps: small-caps; font-variant-numeric: tabular-nums slashed-zero; font-kerning: none }\n")
+    body, flow = [], []
+    wi = 1
+    for i in range(6):
+        ws = words("w", 16, wi); wi += 16; flow += ws
+        inner = list(ws)
+        inner[4] = '<a class=t href="#s%d" data-b="#s%d" data-c="#s%d">%s</a>' % ((i + 2) % 6, (i + 4) % 6, (i + 5) % 6, ws[4])
+        cls = ["lig", "caps", ""][i % 3]
+        body.append('<h2 id="s%d">h%03d</h2>' % (i, i + 1))
+        body.append('<p class="%s">%s</p>' % (cls, " ".join(inner)))
+    scenario("feat-11", "feat", doc(css, "\n".join(body)), expect=dict(margin=True, page_w=240, page_h=150, line_height=12, sentinels=flow))
+
+    for n, dense in enumerate(["", " dense"], start=12):
+        css = (page_css(260, 200, 10) + BASE +
+               ".g { display: grid; grid-template-columns: 60px 60px 60px 60px; grid-auto-rows: 14px; grid-auto-flow: row%s }\n"
+               ".r1 { grid-row: 1 } .r2 { grid-row: 2 } .s2 { grid-column: span 2 } .c3 { grid-column: 3 } .r12 { grid-row: 1 / 3 }\n" % dense)
+        W = words("w", 14)
+        cls = ["c3 r1", "r1", "r12", "r2 s2", "r2", "r1", "", "s2", "r2", "", "r1 s2", "", "r2", ""]
+        items = "".join('<div class="%s">%s</div>' % (c, w) for c, w in zip(cls, W))
+        T = words("t", 6)
+        scenario("feat-%d" % n, "feat", doc(css, '<div class=g>%s</div>%s' % (items, para(T))), expect=dict(margin=True, page_w=260, page_h=200, line_height=12, sentinels=W + T))
+
+    # link-10: anchors and bookmarks in less common positions: <a name>, percent-encoded fragment, id on an inline
+    # box split across lines and a page break, id on display:none (link must be dropped), id + link inside a
+    # fixed-position box (drawn on every page: one anchor, the first), bookmark-level none, bookmark-label with content()
+    css = (page_css(220, 150, 10) + BASE + "h1 { bookmark-level: 1 } h2 { bookmark-level: 2 } h3 { bookmark-level: 3 }\n.nb { bookmark-level: none }\n"
+           ".lbl { bookmark-label: \"L \" content(text) }\n.sec { bookmark-level: 2; bookmark-label: attr(title) \" p\" counter(page) }\n.sect { bookmark-label: attr(title) \" see p\" target-counter(\"#top\", page) }\n.fx { position: fixed; bottom: 0; right: 0; width: 100px; text-align: right }\n.hid { display: none }\n")
+    body, ids, links, bms, sent = [], {}, [], [], []
+    wi = [1]
+
+    def W(k):
+        ws = words("w", k, wi[0]); wi[0] += k; sent.extend(ws); return ws
+    body.append('<div class=fx id=fx>f001 <a href="#top">f002</a></div>'); ids["fx"] = "f001"; links.append(dict(word="f002", target="top"))
+    body.append('<h1 id=top>h001 h002</h1>'); ids["top"] = "h001"; bms.append(dict(level=1, label="h001 h002", word="h001"))
+    ws = W(14); inner = list(ws)
+    inner[2] = '<a name="nm">%s</a>' % ws[2]; ids["nm"] = ws[2]
+    inner[5] = '<a href="#caf%%C3%%A9">%s</a>' % ws[5]; links.append(dict(word=ws[5], target="caf\u00e9"))
+    inner[9] = '<a href="#hid">%s</a>' % ws[9]
+    inner[11] = '<a href="#sp">%s</a>' % ws[11]; links.append(dict(word=ws[11], target="sp"))
+    body.append("<p>%s</p>" % " ".join(inner))
+    body.append('<p class=hid id=hid>x001 x002</p>')
+    body.append('<h3 class=nb>h003 h004</h3>')
+    ws = W(40); inner = list(ws)
+    inner[6] = '<span id=sp>' + ws[6]; inner[33] = ws[33] + '</span>'; ids["sp"] = ws[6]
+    # a bookmarked element split across pages whose label must be parsed again after pagination: ONE outline entry
+    body.append('<section class=sec title="long"><p>%s</p></section>' % " ".join(inner)); bms.append(dict(level=2, label="long p{page}", word=ws[0]))
+    body.append('<h2 class=lbl id="caf\u00e9">h005 h006</h2>'); ids["caf\u00e9"] = "h005"; bms.append(dict(level=2, label="L h005 h006", word="h005"))
+    ws = W(30); inner = list(ws)
+    inner[3] = '<a href="#nm">%s</a>' % ws[3]; links.append(dict(word=ws[3], target="nm"))
+    inner[20] = '<a href="#fx">%s</a>' % ws[20]; links.append(dict(word=ws[20], target="fx"))
+    body.append('<section class="sec sect" title="tgt"><p>%s</p></section>' % " ".join(inner)); bms.append(dict(level=2, label="tgt see p1", word=ws[0]))
+    body.append('<h3>h007 h008</h3>'); bms.append(dict(level=3, label="h007 h008", word="h007"))
+    body.append(para(W(12)))
+    body.append('<h1 class=lbl>h009 h010</h1>'); bms.append(dict(level=1, label="L h009 h010", word="h009"))
+    body.append(para(W(8)))
+    scenario("link-10", "link", doc(css, "\n".join(body), "<title>  Spaced   title </title><meta name=author content=\" A  B \"><meta name=x-custom content=\"c1\">"),
+             expect=dict(margin=True, page_w=220, page_h=150, ids=ids, links=links, dangling=["hid"], bookmarks=bms, sentinels=sent + ["h001", "h003", "h005", "h007", "h009"], line_height=12))
+
+
 def main():
     gen_pag()
     gen_wave3()
@@ -1348,6 +1630,8 @@ def main():
     gen_res()
     gen_shared()
     gen_hyph()
+    gen_reach()
+    gen_wave4()
     write_all()
     print("scenarios:", len(SCEN))
 
